@@ -2,7 +2,9 @@
 //! lists, all targets 0-9, nested compound commands and functions with their
 //! own redirections, subshells, `exec` persisting over later commands,
 //! pipelines, command substitutions, here-documents, changing `noclobber` and
-//! descriptor limit).  Every observed command yields one record
+//! descriptor limit; every third script is run by an interactive shell, where
+//! `exec` with operands that cannot be executed and the errors of special
+//! built-ins do not end the shell).  Every observed command yields one record
 //! {AST of the command, tables before / inside / after, writes, files, $?}
 //! that spec/Trace_Redir.tla judges with the oracle RedirAbs.
 use crate::probe;
@@ -32,6 +34,8 @@ struct Meta {
     inner: Vec<char>,
     /// a system call was made to fail while this command was applied
     flt: bool,
+    /// executed by the interactive shell itself (not in a subshell of it)
+    inter: bool,
 }
 
 struct Gen {
@@ -39,6 +43,10 @@ struct Gen {
     next: usize,
     nc: bool,
     lim: i64,
+    /// the script is run by an interactive shell
+    inter: bool,
+    /// subshell nesting depth of the command being generated
+    sub: usize,
     metas: Vec<Meta>,
     /// script files for the `.` built-in: (path, content)
     dots: Vec<(String, String)>,
@@ -130,6 +138,7 @@ impl Gen {
             lim: self.lim,
             inner: vec![],
             flt: false,
+            inter: self.inter && self.sub == 0,
         });
     }
 
@@ -157,6 +166,10 @@ impl Gen {
         // where no enclosing command of the same process is being judged
         if kind == "exec" && !exec_ok {
             kind = "group";
+        }
+        // `exec` with operands: where the shell survives it (an interactive shell)
+        if kind == "exec" && self.inter && self.sub == 0 && self.rng.gen_bool(0.6) {
+            kind = self.pick(&["execnf", "execnx", "execne", "execdir", "execxf"]);
         }
         let mut list = self.redirs(4, true, false);
         if kind == "empty" && list.is_empty() {
@@ -219,8 +232,14 @@ impl Gen {
         let first_inner = self.next;
         let mut inner = String::new();
         let n = self.rng.gen_range(1..=3);
+        if kind == "subshell" {
+            self.sub += 1;
+        }
         for _ in 0..n {
             self.command(depth + 1, kind == "subshell", &mut inner);
+        }
+        if kind == "subshell" {
+            self.sub -= 1;
         }
         let inner_letters: Vec<char> =
             (first_inner..self.next).filter_map(|i| LETTERS.get(i).map(|&b| b as char)).collect();
@@ -272,6 +291,7 @@ impl Gen {
             list.extend(user);
             let idx = self.metas.len();
             self.meta(e, "pipe", list, 0, depth, false, false);
+            self.metas[idx].inter = false;
             self.metas[idx].btag = format!("b{l}");
             self.metas[idx].atag = format!("a{l}");
             self.metas[idx].flt = fault.is_some();
@@ -291,12 +311,21 @@ impl Gen {
         out.push_str(&format!("obs b{l}\n{}v=$(obs c{l} {marks} {rs})\nobs a{l}\n", fault.clone().unwrap_or_default()));
         self.meta(l, "pipe", list, 0, depth, false, true);
         self.metas.last_mut().unwrap().flt = fault.is_some();
+        self.metas.last_mut().unwrap().inter = false;
     }
 }
 
-fn gen_script(seed: u64) -> (String, Vec<Meta>, Vec<(String, String)>) {
-    let mut g =
-        Gen { rng: StdRng::seed_from_u64(seed), next: 0, nc: false, lim: NO_LIMIT, metas: vec![], dots: vec![] };
+fn gen_script(seed: u64, inter: bool) -> (String, Vec<Meta>, Vec<(String, String)>) {
+    let mut g = Gen {
+        rng: StdRng::seed_from_u64(seed),
+        next: 0,
+        nc: false,
+        lim: NO_LIMIT,
+        inter,
+        sub: 0,
+        metas: vec![],
+        dots: vec![],
+    };
     let mut s = String::from("trap 'obs z' EXIT\n");
     let n = g.rng.gen_range(4..=9);
     for _ in 0..n {
@@ -327,15 +356,17 @@ pub fn random(args: &[String]) -> i32 {
     let mut dropped = 0usize;
     for run in 0..runs {
         let seed = base.wrapping_mul(1_000_003).wrapping_add(run as u64);
-        let (script, metas, dots) = gen_script(seed);
+        let inter = run % 3 == 2;
+        let (script, metas, dots) = gen_script(seed, inter);
         let as_file = run % 4 == 3;
-        let r = scen::run_script_with(&script, as_file, TRACKED_P3, &dots);
+        let r = scen::run_script_with(&script, as_file, inter, TRACKED_P3, &dots);
         if let Some(e) = probe::TOOL_ERROR.with(|t| t.borrow_mut().take()) {
             eprintln!("yv-c09: observation failed: {e}");
             return 2;
         }
         if let Some(sw) = sw.as_mut() {
-            writeln!(sw, "{}", json!({"run": run, "seed": seed, "file": as_file, "script": script})).unwrap();
+            writeln!(sw, "{}", json!({"run": run, "seed": seed, "file": as_file, "interactive": inter, "script": script}))
+                .unwrap();
         }
         for m in &metas {
             // a command the shell exited in is judged only at top level: deeper,
@@ -350,6 +381,7 @@ pub fn random(args: &[String]) -> i32 {
             o.insert("run".into(), json!(run));
             o.insert("cmd".into(), json!(m.letter.to_string()));
             o.insert("kind".into(), json!(m.kind));
+            o.insert("inter".into(), json!(m.inter));
             o.insert("nc".into(), json!(m.nc));
             o.insert("lim".into(), json!(m.lim));
             o.insert("bst".into(), json!(m.bst));
